@@ -1,6 +1,7 @@
 import MJ.Proofs.LocDebug
 import MJ.Proofs.LocTables
 import MJ.Proofs.LocCodegen
+import MJ.Proofs.LocVmTie
 /-!
 # C14 — errors point at the right template line; reported ranges are valid slices
 
@@ -283,6 +284,30 @@ example : run (Tok.new "x\ny\n{{ ?".toList) ⟨1, 0, 0⟩ [.adv 4, .mark, .adv 2
     mapChk (List.map (shiftSpan 2 4)) (run (Tok.new "{{ ?".toList) ⟨1, 0, 0⟩ [.mark, .adv 2, .emit, .adv 1, .err]) := by
   decide
 
+/-- Horizontal shift: text `H` without a newline inserted at a position `A` of the source.  The line
+    of every later position is unchanged; a position on the same line (no newline between the
+    insertion point and it) moves right by the number of characters of `H` (before the `u16`
+    saturation), a position on a later line keeps its column; byte offsets grow by the length of `H`. -/
+theorem shift_cols (A H B : List Char) (hH : '\n' ∉ H) :
+    lineOf (A ++ H ++ B) = lineOf (A ++ B) ∧
+    ('\n' ∈ B → colOf (A ++ H ++ B) = colOf (A ++ B)) ∧
+    ('\n' ∉ B → colOf (A ++ H ++ B) = min (lastSeg (A ++ B) + H.length) 65535) ∧
+    utf8Len (A ++ H ++ B) = utf8Len (A ++ B) + utf8Len H := by
+  have hc : H.count '\n' = 0 := List.count_eq_zero.mpr hH
+  refine ⟨?_, ?_, ?_, ?_⟩
+  · simp [lineOf, List.count_append, hc]
+  · intro hB
+    simp [colOf, lastSeg_append, hB]
+  · intro hB
+    have h1 : lastSeg (A ++ H ++ B) = lastSeg A + H.length + B.length := by
+      rw [lastSeg_append (A ++ H) B, if_neg hB, lastSeg_append A H, if_neg hH]
+    have h2 : lastSeg (A ++ B) = lastSeg A + B.length := by
+      rw [lastSeg_append A B, if_neg hB]
+    rw [colOf, h1, h2]; congr 1; omega
+  · simp [utf8Len_append]; omega
+
+example : colOf ("a\nä€𝄞{{ x".toList) = 7 ∧ colOf ("a\n{{ x".toList) = 4 ∧ lineOf ("a\nä€𝄞{{ x".toList) = 2 := by decide
+
 /-! ## 4. the instruction side tables return the recorded location -/
 
 /-- `first_instruction` is strictly increasing in both tables (what `binary_search_by_key` needs) -/
@@ -447,6 +472,29 @@ example : ((cgRun [.pushSpan ⟨1, 8, 8, 1, 11, 11⟩, .setLine 3, .setLine 3, .
       .setLine 3, .add, .add, .popSpan, .add] Cg.new).instrs.getLine 2 = .ok (some 3)) ∧
     ((cgRun [.pushSpan ⟨1, 8, 8, 1, 11, 11⟩, .setLine 3, .setLine 3, .pushSpan ⟨3, 14, 40, 3, 22, 48⟩,
       .setLine 3, .add, .add, .popSpan, .add] Cg.new).instrs.getSpan 2 = .ok none) := by decide
+
+/-! ## 7. source ties (tables regenerated from /repo on every run) -/
+
+/-- Every fallible expression inside the instruction arms of `eval_impl` (table `c14VmRows`, extracted
+    from `vm/mod.rs`) leaves the interpreter loop through `ctx_ok!` / `bail!` / a helper macro that
+    ends in `bail!` — i.e. through `process_err`, which attaches name, line and span — except the
+    rows listed in `allowedUnlocated` (the write of raw template data).  A plain `ok!`, `?` or
+    `return Err` added to an arm makes this theorem fail. -/
+theorem source_tie_vm_rows :
+    MJ.Gen.c14VmRows.all rowLocated = true ∧ macroRowsPresent = true :=
+  ⟨vm_rows_located, vm_macros_present⟩
+
+/-- the `u16` / `u32` widths the model hard-codes are those of `Tokenizer`, `Span`, `LineInfo` -/
+theorem source_tie_widths :
+    (∀ x, satInc x = if x < 2 ^ MJ.Gen.c14Bits_line - 1 then x + 1 else 2 ^ MJ.Gen.c14Bits_line - 1) ∧
+    (∀ x, asU32 x = x % 2 ^ MJ.Gen.c14Bits_span_offset) ∧
+    MJ.Gen.c14Bits_col = MJ.Gen.c14Bits_line ∧ MJ.Gen.c14Bits_span_line = MJ.Gen.c14Bits_line ∧
+    MJ.Gen.c14Bits_span_col = MJ.Gen.c14Bits_line ∧ MJ.Gen.c14Bits_table_line = MJ.Gen.c14Bits_line ∧
+    MJ.Gen.c14Bits_first_instruction = MJ.Gen.c14Bits_span_offset :=
+  ⟨satInc_width, asU32_width, by decide, by decide, by decide, by decide, by decide⟩
+
+example : rowLocated ("CompareAndPreserve", "In|NotIn", "ctx_ok", "ops::contains") = true ∧
+    rowLocated ("CompareAndPreserve", "In|NotIn", "ok", "ops::contains") = false := by decide
 
 /-! ## the full statement -/
 
